@@ -8,6 +8,7 @@ import PyPhysim.Proofs.C04Gmd
 import PyPhysim.Proofs.C04Rank
 import PyPhysim.Proofs.C04Examples
 import PyPhysim.Proofs.C04ObjLimit
+import PyPhysim.Proofs.C04Close
 
 /-!
 # C04 — MIMO schemes recover data over any full-rank channel within the power budget
@@ -560,6 +561,129 @@ theorem configuration_read_back (K : Kernels ℂ) (o : Obj ℂ) (ops : List (Op 
   · intro hb
     simp [step, hb]
 
+/-! ## R15 — distinct values that are merely close
+
+The model is a function of the *exact* value: no comparison in it has a tolerance.  The
+theorems below say what a tolerance (an `isclose`, a rounded key, an absolute threshold)
+would break. -/
+
+/-- **A setter takes effect for every new value** (noise variance): whatever the object held,
+    after `set_noise_var(σ²)` it holds exactly `σ²` — read back bit for bit — and the object
+    has changed as soon as `σ²` differs from the old value, by however little. -/
+theorem setter_takes_effect_for_every_new_value (K : Kernels ℂ) (o : Obj ℂ)
+    (hb : o.scheme.blastFamily = true) (s : ℝ) (hs : 0 ≤ s) :
+    (step K o (.setNoiseVar (some (s : ℂ)))).1.nv = (s : ℂ) ∧
+    (step K (step K o (.setNoiseVar (some (s : ℂ)))).1 .noiseVar).2 = .vec 1 (fun _ => (s : ℂ)) ∧
+    ((s : ℂ) ≠ o.nv → (step K o (.setNoiseVar (some (s : ℂ)))).1 ≠ o) := by
+  rw [(Pf.step_setNoiseVar K o hb s hs).1]
+  refine ⟨rfl, ?_, ?_⟩
+  · simp [step, hb]
+  · intro hne h
+    exact hne (congrArg Obj.nv h)
+
+/-- **… and so does `set_channel_matrix`**: an accepted channel is stored as it is (and read
+    back as it is), and the object has changed as soon as the stored channel differs. -/
+theorem channel_setter_takes_effect_for_every_new_value (K : Kernels ℂ) (o : Obj ℂ) (c : ChanArg ℂ)
+    (ch : Chan ℂ) (h : storeChan o.scheme c = .ok ch) :
+    (step K o (.setChannel c)).1.chan = some ch ∧
+    (step K (step K o (.setChannel c)).1 .channel).2 = .mat ch.nr ch.nt ch.H ∧
+    (o.chan ≠ some ch → (step K o (.setChannel c)).1 ≠ o) := by
+  rw [Pf.step_setChannel_ok K o c ch h]
+  refine ⟨rfl, rfl, ?_⟩
+  intro hne h'
+  exact hne (congrArg Obj.chan h').symm
+
+/-- **Close channels are different channels.**  Two matrices of one shape that differ in a
+    single entry — by a relative `1e-6`, by one unit in the last place — configure different
+    objects: no "unchanged, skip" shortcut is sound. -/
+theorem close_channels_give_distinct_objects (K : Kernels ℂ) (o : Obj ℂ) (nr nt : Nat)
+    (H H' : Mat ℂ nr nt) (ch ch' : Chan ℂ) (h : storeChan o.scheme (.mat nr nt H) = .ok ch)
+    (h' : storeChan o.scheme (.mat nr nt H') = .ok ch') (hne : H ≠ H') :
+    (step K o (.setChannel (.mat nr nt H))).1 ≠ (step K o (.setChannel (.mat nr nt H'))).1 := by
+  rw [Pf.step_setChannel_ok K o _ ch h, Pf.step_setChannel_ok K o _ ch' h']
+  intro e
+  have e2 : some ch = some ch' := congrArg Obj.chan e
+  exact Pf.storeChan_mat_injective o.scheme nr nt H H' ch ch' h h' hne (Option.some.inj e2)
+
+/-- **The MMSE / zero-forcing decision is the exact test `0 < σ²`.**  For every positive
+    noise variance, however small, the Blast-family filter is `√Nt` times what `solve`
+    returned for that very `σ²`; for `σ² = 0` it is `√Nt` times the pseudo-inverse. -/
+theorem filter_decision_is_exact (K : Kernels ℂ) (H : Mat ℂ Nr Nt) :
+    (∀ s : ℝ, 0 < s → blastFilterK K H (s : ℂ) =
+      fun i j => K.solve (mmseLhs H (s : ℂ)) (mmseRhs H) i j * sqrtNat Nt) ∧
+    blastFilterK K H 0 = fun i j => K.pinv H i j * sqrtNat Nt := by
+  constructor
+  · intro s hs
+    funext i j
+    simp [blastFilterK, blastFilter, posB_def, hs, mmseFilter]
+  · funext i j
+    simp [blastFilterK, blastFilter, posB_def, zfFilter]
+
+/-- **Different noise variances never share an MMSE filter.**  If one matrix satisfies the
+    MMSE defining equation of a non-zero channel for `σ²` and for `σ'²`, then `σ² = σ'²`:
+    a filter kept from a close-but-different noise variance always violates the defining
+    equation. -/
+theorem mmse_filter_separates_noise_variances (H : Mat ℂ Nr Nt) (v v' : ℂ) (W : Mat ℂ Nt Nr)
+    (hH : ∃ i j, H i j ≠ 0) (h : IsSolve (mmseLhs H v) (mmseRhs H) W)
+    (h' : IsSolve (mmseLhs H v') (mmseRhs H) W) : v = v' := by
+  unfold IsSolve at h h'
+  c04_matrix at h
+  c04_matrix at h'
+  refine Pf.mmse_separates (toM H) (toM W) v v' h h' ?_
+  intro h0
+  obtain ⟨i, j, hij⟩ := hH
+  exact hij (congrFun (congrFun h0 i) j)
+
+/-- **A negligible noise variance is not zero.**  For a channel of full column rank with at
+    least one transmit antenna, the zero-forcing filter satisfies the MMSE defining equation
+    of NO non-zero noise variance — treating a small `σ²` as `0` always breaks the equation. -/
+theorem zf_filter_is_not_an_mmse_filter (H : Mat ℂ Nr Nt) (Gp : Mat ℂ Nt Nr) (hNt : 0 < Nt)
+    (hr : FullColRank H) (hp : IsPinv H Gp) (s : ℂ) (hs : s ≠ 0) :
+    ¬ IsSolve (mmseLhs H s) (mmseRhs H) (zfFilter Gp) := by
+  intro h
+  unfold IsSolve at h
+  have e1 := zf_defining H Gp hr hp
+  have e2 := zf_normal_equation H Gp hp
+  c04_matrix at h
+  c04_matrix at e1
+  c04_matrix at e2
+  exact Pf.zf_not_mmse (toM H) (toM (zfFilter Gp)) s hNt e1 e2 hs h
+
+/-! ## R16 — argument identity and buffer reuse
+
+`Model/C04Buf.lean`: a caller with ONE preallocated channel array (`refill`, `setBuffer`,
+`setFresh`, `observe`), the code as it is (`codeRun`: `set_channel_matrix` keeps the array
+object) against value semantics (`valRun`: the object works with the contents at call time,
+which is what `Op.setChannel` of `Model/C04Obj.lean` takes). -/
+
+/-- **Whatever was handed over before, the last contents win.**  After any history — the same
+    array with other contents included — `set_channel_matrix(c)` leaves the object that the
+    contents `c` define; nothing of the earlier channels survives. -/
+theorem last_handed_over_contents_win (K : Kernels ℂ) (o : Obj ℂ) (ops : List (Op ℂ)) (c : ChanArg ℂ)
+    (ch : Chan ℂ) (h : storeChan o.scheme c = .ok ch) :
+    run K o (ops ++ [.setChannel c]) = ⟨o.scheme, some ch, cfgNv o.scheme o.nv ops⟩ := by
+  rw [Pf.run_append_one, Pf.run_state K ops o,
+    Pf.step_setChannel_ok K ⟨o.scheme, cfgChan o.scheme o.chan ops, cfgNv o.scheme o.nv ops⟩ c ch h]
+
+/-- **A refilled buffer that is handed over again is a fresh value.**  As long as the caller
+    passes its array to `set_channel_matrix` again after every refill (the loop of a Monte
+    Carlo simulation), the code — which keeps the array object — makes exactly the
+    observations of value semantics: the k-th call sees the contents of the k-th refill. -/
+theorem refilled_buffer_equals_fresh_object {β : Type} (b : β) (ops : List (Buf.BOp β))
+    (h : Buf.disciplined false ops = true) :
+    Buf.codeRun ⟨b, none, false⟩ ops = Buf.valRun ⟨b, none⟩ ops :=
+  Buf.disciplined_runs_agree ops _ _ false ⟨rfl, fun _ => rfl, fun _ => rfl⟩ h
+
+/-- **Known finding, negative witness on the model of the code.**  The discipline is needed:
+    `set_channel_matrix(buf); buf[...] = 1; observe` — the code works with the new contents
+    `1`, value semantics with the contents `0` that were handed over
+    (`C04:set_channel_matrix:keeps-the-callers-array`; replayed on the library by the
+    `reuse` oracle, mode `after-call`). -/
+theorem channel_kept_by_reference_fails :
+    Buf.codeRun (β := Nat) ⟨0, none, false⟩ [.setBuffer, .refill 1, .observe] = [some 1] ∧
+    Buf.valRun (β := Nat) ⟨0, none⟩ [.setBuffer, .refill 1, .observe] = [some 0] := by
+  decide
+
 /-! ## non-vacuity: concrete values satisfying the hypotheses -/
 
 /-- the `pinv` contract and full column rank hold for the 2×1 channel `[1, j]ᵀ` with
@@ -608,5 +732,32 @@ example : cfgChan .blast (constructEmpty (α := ℂ) .blast).chan
         .setNoiseVar (some ((1 / 2 : ℝ) : ℂ))]
     = cfgChan .blast (some ⟨2, 1, Ex.H⟩) [.setNoiseVar (some ((1 / 2 : ℝ) : ℂ))] := by
   simp [cfgChan, storeChan]
+
+/-- the hypotheses of `mmse_filter_separates_noise_variances` / `filter_decision_is_exact` are
+    satisfiable: the channel `[1, j]ᵀ` is non-zero and its MMSE system has a solution for the
+    tiny noise variance `4·10⁻¹²` -/
+example : (∃ i j, Ex.H i j ≠ 0) ∧
+    ∃ W, IsSolve (mmseLhs Ex.H (((4e-12 : ℝ)) : ℂ)) (mmseRhs Ex.H) W := by
+  refine ⟨⟨0, 0, by simp [Ex.H]⟩, ?_⟩
+  obtain ⟨W, hW⟩ := Pf.mmse_exists (toM Ex.H) (s := 4e-12) (by norm_num)
+  refine ⟨fun i j => W i j, ?_⟩
+  unfold IsSolve
+  c04_matrix
+  exact hW
+
+/-- `zf_filter_is_not_an_mmse_filter` is not vacuous: `[1, j]ᵀ` with `G = [1/2, −j/2]` and one
+    transmit antenna -/
+example : (0 < 1) ∧ FullColRank Ex.H ∧ IsPinv Ex.H Ex.G ∧ (((4e-12 : ℝ)) : ℂ) ≠ 0 := by
+  refine ⟨Nat.one_pos, Ex.pinv_contract.1, Ex.pinv_contract.2, ?_⟩
+  norm_num
+
+/-- `close_channels_give_distinct_objects`: `[1, j]ᵀ` and `[2, 0]ᵀ` are both accepted by Blast -/
+example : storeChan (α := ℂ) .blast (.mat 2 1 Ex.H) = .ok ⟨2, 1, Ex.H⟩ ∧
+    storeChan (α := ℂ) .blast (.mat 2 1 Ex.H2) = .ok ⟨2, 1, Ex.H2⟩ := ⟨rfl, rfl⟩
+
+/-- a disciplined Monte Carlo loop (hypothesis of `refilled_buffer_equals_fresh_object`):
+    hand over, observe, refill, hand over again, observe twice, replace by a fresh array, observe -/
+example : Buf.disciplined (β := Nat) false
+    [.setBuffer, .observe, .refill 1, .setBuffer, .observe, .observe, .refill 2, .setFresh 3, .observe] = true := rfl
 
 end PyPhysim.C04
